@@ -49,6 +49,8 @@ def run(ctx):
         fs = ctx.facts(cfg)
         ctx.guard(returns, ctx, cfg, fs)
         ctx.guard(info, ctx, cfg, fs)
+        import wiring
+        ctx.guard(wiring.builders, ctx, cfg, fs, 'I.info', r'^info::OptionParser::<T>::(help_parser|version_parser|version|fallback_to_usage)$')
         ctx.guard(ambiguity, ctx, cfg, fs)
         ctx.guard(combine, ctx, cfg, fs)
         ctx.guard(best_effort, ctx, cfg, fs)
